@@ -41,12 +41,21 @@ func pathOf(t []string) string {
 		if tok == "P" {
 			k++
 			fmt.Fprintf(&b, "{p%d}", k)
+		} else if bt, ok := mbByte[tok]; ok {
+			// a byte of a multi-byte character, written in the model as an ASCII letter (the
+			// matcher works on bytes; chars() maps observed bytes back the same way)
+			b.WriteByte(bt)
 		} else {
 			b.WriteString(tok)
 		}
 	}
 	return b.String()
 }
+
+// bytes of multi-byte characters and the ASCII letters that stand for them in the model
+// (TLC's Json reader is not trusted with non-ASCII text)
+var mbByte = map[string]byte{"X": 0xC3, "Y": 0xA9, "Z": 0xA8, "W": 0xAA}
+var mbTok = map[byte]string{0xC3: "X", 0xA9: "Y", 0xA8: "Z", 0xAA: "W"}
 
 func nParams(t []string) int {
 	n := 0
@@ -81,7 +90,11 @@ func SpecFor(rs routeSet) []byte {
 func chars(s string) []string {
 	out := make([]string, len(s))
 	for i := 0; i < len(s); i++ {
-		out[i] = string(s[i])
+		if t, ok := mbTok[s[i]]; ok {
+			out[i] = t
+		} else {
+			out[i] = string(s[i])
+		}
 	}
 	return out
 }
@@ -336,7 +349,21 @@ func Check(r *core.Run) error {
 		routeSet{{T: []string{"/", P}, Ms: []string{"DELETE", "OPTIONS", "PATCH", "TRACE"}}, {T: []string{"/", "a"}, Ms: []string{"HEAD", "OPTIONS"}}},
 		// templates without an OPTIONS operation: the recorded preflight answer
 		routeSet{{T: []string{"/", "a"}, Ms: []string{"GET", "HEAD", "PUT"}}, {T: []string{"/", "a", "/", P}, Ms: []string{"DELETE"}}})
-	return serveSets(r, known, sets, paths)
+	if err := serveSets(r, known, sets, paths); err != nil {
+		return err
+	}
+	// static text with multi-byte characters that share their first byte (e-acute C3 A9,
+	// e-grave C3 A8): the tree splits inside a character; paths are the instances, the
+	// crossed instances and the bare prefixes
+	e1, e2, e3 := "X", "Y", "Z"
+	usets := []routeSet{
+		{{T: []string{"/", e1, e2, "/", "a"}, Ms: []string{"GET"}}, {T: []string{"/", e1, e3, "/", "b"}, Ms: []string{"GET"}}},
+		{{T: []string{"/", e1, e2}, Ms: []string{"GET"}}, {T: []string{"/", e1, e3}, Ms: []string{"POST"}}},
+		{{T: []string{"/", "a", e1, e2, "/", P}, Ms: []string{"GET"}}, {T: []string{"/", "a", e1, e3, "/", P, "/", "b"}, Ms: []string{"GET"}}},
+	}
+	upaths := []string{"/\u00e9/a", "/\u00e8/a", "/\u00e9/b", "/\u00e8/b", "/\u00e9", "/\u00e8", "/a\u00e9/x", "/a\u00e8/x", "/a\u00e8/x/b", "/a\u00e9/x/b", "/a", "/", "/\u00e9/", "/\u00ea/a"}
+	r.Cov("multibyte_route_sets", len(usets))
+	return serveSets(r, known, usets, upaths)
 }
 
 // serveSets regenerates one server per route set, drives every path x method through it
